@@ -89,6 +89,8 @@ static void sample_sched(G& g, SimConfig& c, bool multi) {
     if (g.chance(0.5)) { c.hot_funcs.push_back("mi_free_block_delayed_mt"); c.hot_funcs.push_back("_mi_page_thread_free_collect"); }
   }
   else { c.strategy = ST_ROUNDROBIN; }
+  // store-buffer mode: release / relaxed atomic stores may be overtaken by the storing thread's next few atomic loads
+  if (g.chance(0.3)) c.sb_p = g.pick({0.2, 0.5, 1.0});
 }
 
 static void set_env(Plan& p, const char* name, const std::string& v) {
@@ -929,6 +931,7 @@ static void fam_c10_concurrent(G& g, Plan& p) {
   const bool bound = g.chance(0.35);
   if (bound) { P0.ops.push_back(mk(OP_reserve_arena, 0, (64 + 32 * g.below(2)) * MiB, g.below(2), g.below(2))); P0.ops.push_back(mkh(OP_heap_new_in_arena, 0, 0)); if (g.chance(0.5)) set_env(p, "ABANDONED_RECLAIM_ON_FREE", g.pick({0, 1})); set_env(p, "DISALLOW_ARENA_ALLOC", 0); }
   else P0.ops.push_back(mkh(OP_heap_new, 0));
+  if (g.chance(0.5)) p.cfg.sb_p = g.pick({0.5, 1.0});      // the owner's hand-over of the pages (new heap stored, flag read) against the freers' flag/heap accesses with store buffering
   P0.ops.push_back(mkh(OP_heap_new, 1));
   for (int i = 0; i < n; i++) { Op o = mk(OP_malloc, i, req); o.hslot = 0; P0.ops.push_back(o); }
   for (int i = 0; i < 6; i++) { Op o = mk(OP_malloc, n + i, req); o.hslot = 1; P0.ops.push_back(o); }
